@@ -137,7 +137,10 @@ namespace zoo {
               const ipr::Construction& n = *lx.make_construction(ty, pick); v.template node<ipr::Construction>(n); v.operands(same(n.arguments(), pick) && same(n.operand(), pick)); v.typed(n, &ty); return; }
       ZCASE { v.generative(); const ipr::Name& nm = w.n(); const ipr::Type* et; auto ty = w.ot(et); const ipr::Id_expr& n = *lx.make_id_expr(nm, ty);
               v.template node<ipr::Id_expr>(n); v.operands(same(n.name(), nm) && same(n.operand(), nm) && !n.resolution().is_valid()); v.typed(n, et); return; }
-      ZCASE { v.generative(); impl::Var* d = w.reg->declare_var(w.n(), w.t()); const ipr::Id_expr& n = *lx.make_id_expr(*d);
+      ZCASE { v.generative(); const ipr::Name& dn = w.n(); const ipr::Type& dt = w.t(); impl::Var* d = w.reg->declare_var(dn, dt);
+              if (w.flag()) d = w.reg->declare_var(dn, dt);                                   /* the id-expression may be made from a redeclaration: it resolves to that very declaration */
+              if (w.flag()) { impl::Id_expr* use = lx.make_id_expr(dn, *w.T[(w.pick(3))]); use->decls = d; }      /* an earlier, name-built use of the same declaration, typed on its own and resolved by the client */
+              const ipr::Id_expr& n = *lx.make_id_expr(*d);
               v.template node<ipr::Id_expr>(n); v.operands(same(n.name(), d->name()) && n.resolution().is_valid() && same(n.resolution().get(), *d)); v.typed(n, &static_cast<const ipr::Var&>(*d).type()); return; }
       ZCASE { v.generative(); const ipr::Identifier& i = w.id(); const ipr::Type* et; auto ty = w.ot(et); const ipr::Label& n = *lx.make_label(i, ty);
               v.template node<ipr::Label>(n); v.operands(same(n.name(), i) && same(n.operand(), i)); v.typed(n, et); return; }
@@ -362,9 +365,10 @@ namespace zoo {
               v.template node<ipr::BasicAttribute>(ba); v.template node<ipr::ScopedAttribute>(sa); v.template node<ipr::LabeledAttribute>(la); v.template node<ipr::CalledAttribute>(ca);
               v.template node<ipr::ExpandedAttribute>(xa); v.template node<ipr::FactoredAttribute>(fa); v.template node<ipr::ElaboratedAttribute>(ea); return; }
       ZCASE { impl::capture_spec_factory* cf = w.own(new impl::capture_spec_factory); uint64_t m = w.nd() & 0xff; ipr::Binding_mode bm = ipr::Binding_mode(m);
-              impl::Var* d = w.reg->declare_var(w.id(), w.t()); const ipr::Identifier& i = w.id(); const ipr::Expr& e = w.e();
+              const ipr::Name& captured = w.n(); bool by_identifier = util::view<ipr::Identifier>(captured) != nullptr;      /* the captured entity may be named by something that is not an identifier (an operator) */
+              impl::Var* d = w.reg->declare_var(captured, w.t()); const ipr::Identifier& i = w.id(); const ipr::Expr& e = w.e();
               auto& dc = cf->default_capture(bm); auto& io = cf->implicit_object_capture(bm); auto& el = cf->enclosing_local_capture(*d, bm); auto& bc = cf->binding_capture(i, e, bm); auto& ex = cf->expansion_capture(w.flag() ? static_cast<const ipr::Capture_specification::Named&>(el) : bc);
-              v.operands((uint64_t)dc.mode() == m && (uint64_t)io.how() == m && (uint64_t)el.mode() == m && same(el.declaration(), *d) && same(el.name(), d->name()) && (uint64_t)bc.mode() == m && same(bc.name(), i) && same(bc.initializer(), e)
+              v.operands((uint64_t)dc.mode() == m && (uint64_t)io.how() == m && (uint64_t)el.mode() == m && same(el.declaration(), *d) && (by_identifier ? same(el.name(), d->name()) : vp_outcome([&] { (void)el.name(); }) == 1) && (uint64_t)bc.mode() == m && same(bc.name(), i) && same(bc.initializer(), e)
                          && (same(ex.what(), el) || same(ex.what(), bc)));
               v.template node<ipr::Capture_specification::Default>(dc); v.template node<ipr::Capture_specification::Implicit_object>(io); v.template node<ipr::Capture_specification::Enclosing_local>(el);
               v.template node<ipr::Capture_specification::Binding>(bc); v.template node<ipr::Capture_specification::Expansion>(ex); return; }
